@@ -2789,4 +2789,116 @@ pub mod verif_hooks_line {
     ) -> Result<()> {
         program.instructions[index].write(w, program.encoding)
     }
+
+    /// A public mirror of the private `LineInstruction`.
+    ///
+    /// `SetFile` holds the 0-based `FileId` index.
+    #[derive(Debug, Clone, Copy, PartialEq, Eq)]
+    #[allow(missing_docs)]
+    pub enum VerifLineInstruction {
+        Special(u8),
+        Copy,
+        AdvancePc(u64),
+        AdvanceLine(i64),
+        SetFile(usize),
+        SetColumn(u64),
+        NegateStatement,
+        SetBasicBlock,
+        ConstAddPc,
+        SetPrologueEnd,
+        SetEpilogueBegin,
+        SetIsa(u64),
+        EndSequence,
+        SetAddress(Address),
+        SetDiscriminator(u64),
+    }
+
+    impl VerifLineInstruction {
+        fn from_real(i: LineInstruction) -> Self {
+            match i {
+                LineInstruction::Special(v) => VerifLineInstruction::Special(v),
+                LineInstruction::Copy => VerifLineInstruction::Copy,
+                LineInstruction::AdvancePc(v) => VerifLineInstruction::AdvancePc(v),
+                LineInstruction::AdvanceLine(v) => VerifLineInstruction::AdvanceLine(v),
+                LineInstruction::SetFile(v) => VerifLineInstruction::SetFile(v.index()),
+                LineInstruction::SetColumn(v) => VerifLineInstruction::SetColumn(v),
+                LineInstruction::NegateStatement => VerifLineInstruction::NegateStatement,
+                LineInstruction::SetBasicBlock => VerifLineInstruction::SetBasicBlock,
+                LineInstruction::ConstAddPc => VerifLineInstruction::ConstAddPc,
+                LineInstruction::SetPrologueEnd => VerifLineInstruction::SetPrologueEnd,
+                LineInstruction::SetEpilogueBegin => VerifLineInstruction::SetEpilogueBegin,
+                LineInstruction::SetIsa(v) => VerifLineInstruction::SetIsa(v),
+                LineInstruction::EndSequence => VerifLineInstruction::EndSequence,
+                LineInstruction::SetAddress(v) => VerifLineInstruction::SetAddress(v),
+                LineInstruction::SetDiscriminator(v) => VerifLineInstruction::SetDiscriminator(v),
+            }
+        }
+
+        fn to_real(self) -> LineInstruction {
+            match self {
+                VerifLineInstruction::Special(v) => LineInstruction::Special(v),
+                VerifLineInstruction::Copy => LineInstruction::Copy,
+                VerifLineInstruction::AdvancePc(v) => LineInstruction::AdvancePc(v),
+                VerifLineInstruction::AdvanceLine(v) => LineInstruction::AdvanceLine(v),
+                VerifLineInstruction::SetFile(v) => LineInstruction::SetFile(FileId::new(v)),
+                VerifLineInstruction::SetColumn(v) => LineInstruction::SetColumn(v),
+                VerifLineInstruction::NegateStatement => LineInstruction::NegateStatement,
+                VerifLineInstruction::SetBasicBlock => LineInstruction::SetBasicBlock,
+                VerifLineInstruction::ConstAddPc => LineInstruction::ConstAddPc,
+                VerifLineInstruction::SetPrologueEnd => LineInstruction::SetPrologueEnd,
+                VerifLineInstruction::SetEpilogueBegin => LineInstruction::SetEpilogueBegin,
+                VerifLineInstruction::SetIsa(v) => LineInstruction::SetIsa(v),
+                VerifLineInstruction::EndSequence => LineInstruction::EndSequence,
+                VerifLineInstruction::SetAddress(v) => LineInstruction::SetAddress(v),
+                VerifLineInstruction::SetDiscriminator(v) => LineInstruction::SetDiscriminator(v),
+            }
+        }
+    }
+
+    /// The `index`th generated instruction.
+    pub fn instruction(program: &LineProgram, index: usize) -> VerifLineInstruction {
+        VerifLineInstruction::from_real(program.instructions[index])
+    }
+
+    /// Serialise one instruction with the real `LineInstruction::write`.
+    pub fn write_one<W: Writer>(
+        instruction: VerifLineInstruction,
+        w: &mut DebugLine<W>,
+        encoding: Encoding,
+    ) -> Result<()> {
+        instruction.to_real().write(w, encoding)
+    }
+
+    /// Put the program in the state reached after `prev` was generated in an open sequence:
+    /// an arbitrary reachable pre-state for one `generate_row`/`end_sequence` step.
+    pub fn set_prev_row(program: &mut LineProgram, prev: LineRow) {
+        program.in_sequence = true;
+        program.prev_row = prev;
+        program.row = prev;
+    }
+
+    /// The previous row and the current row registers.
+    pub fn rows(program: &LineProgram) -> (LineRow, LineRow) {
+        (program.prev_row, program.row)
+    }
+
+    /// Reserve space for `n` more instructions.
+    pub fn reserve_instructions(program: &mut LineProgram, n: usize) {
+        program.instructions.reserve(n);
+    }
+
+    /// A `FileId` with the given 0-based index, and its encoded value for a version.
+    pub fn file_id(index: usize) -> FileId {
+        FileId::new(index)
+    }
+
+    /// The value `DW_LNS_set_file` carries for `id` in the given version.
+    pub fn file_raw(id: FileId, version: u16) -> u64 {
+        id.raw(version)
+    }
+
+    /// The 0-based index of a `FileId`.
+    pub fn file_index(id: FileId) -> usize {
+        id.index()
+    }
 }
